@@ -136,13 +136,23 @@ struct World {
     return r;
   }
   static unsigned long maxDelta;
+  // Canonical state. Every time quantity is relative to `now` and capped just above the largest threshold it is
+  // ever compared with (timeout, period*1000, the liveness bound): beyond the cap every comparison has the same
+  // outcome and adding any delta keeps it beyond the cap, so merged states have identical futures and verdicts.
   std::string key() const {
     uint8_t st = LF::status(*clk);
-    unsigned long rel1 = (st == SystemClockLoop::kStatusSent || st == SystemClockLoop::kStatusWaitForRetry) ? now - LF::reqStart(*clk) : 0;
-    unsigned long rel2 = (st == SystemClockLoop::kStatusOk) ? now - LF::lastSyncMs(*clk) : 0;
-    return fmt("%d|%u|%lu|%lu|%u|%d|%d|%d%d|%lu|%u|%lu", st, LF::period(*clk), rel1, rel2, (unsigned)(uint16_t)((uint16_t)now - SystemClockLoopTest::prev(*clk)),
-               init ? (int)(SystemClockLoopTest::epoch(*clk) - true_time(now)) : -99, init ? (int)(clk->getLastSyncTime() - true_time(now)) : -99,
-               (int)unjudged, (int)everSent, everSent ? now - lastSendMs : 0UL, modelPeriod * 100000 + requiredGap, (unsigned long)(now % 1000));
+    const unsigned long capWait = std::max<unsigned long>((unsigned long)cfg.sync * 1000UL, cfg.timeout) + 1;
+    const unsigned long capSend = (unsigned long)cfg.sync * 1000UL + cfg.timeout + 6UL * maxDelta + 1;
+    unsigned long rel1 = (st == SystemClockLoop::kStatusSent || st == SystemClockLoop::kStatusWaitForRetry) ? std::min(now - LF::reqStart(*clk), capWait) : 0;
+    unsigned long rel2 = (st == SystemClockLoop::kStatusOk) ? std::min(now - LF::lastSyncMs(*clk), capWait) : 0;
+    long drift = init ? (long)SystemClockLoopTest::epoch(*clk) - (long)true_time(now) : -99;
+    if (unjudged && (drift > 10 || drift < -10)) drift = 999;   // only "differs from any offered value" matters then
+    int lastSyncOk = (clk->getLastSyncTime() == lastSync) ? 1 : 0;
+    long lsRel = (lastSync == Clock::kInvalidSeconds) ? -99 : std::max(-10L, std::min(10L, (long)lastSync - (long)true_time(now)));
+    unsigned long since = everSent ? std::min(now - lastSendMs, capSend) : std::min(now - cfg.start, capSend);
+    unsigned long pollGap = 0;   // lastPoll == now after every event
+    return fmt("%d|%u|%lu|%lu|%u|%ld|%d,%ld|%d%d|%lu|%u|%lu|%lu", st, LF::period(*clk), rel1, rel2, (unsigned)(uint16_t)((uint16_t)now - SystemClockLoopTest::prev(*clk)),
+               drift, lastSyncOk, lsRel, (int)unjudged, (int)everSent, since, modelPeriod * 100000 + requiredGap, (unsigned long)(now % 1000), pollGap);
   }
 };
 unsigned long World::maxDelta = 0;
@@ -168,6 +178,18 @@ int main(int argc, char** argv) {
     };
     auto before = [&](const std::vector<uint16_t>& h, uint16_t op) {};
     McStats st = explore<World, Cfg, Ev>(cfg, alpha, depth, expected, mismatch, before, 400000);
+    // same configuration, alphabet without the 1 ms step, explored to fixpoint (all schedules of any length over it)
+    {
+      std::vector<Ev> coarse; for (auto& e : alpha) if (e.delta >= 50) coarse.push_back(e);
+      auto hist2 = [&](const std::vector<uint16_t>& h, uint16_t op) { std::string s; for (uint16_t x : h) s += fmt("+%ums %s; ", coarse[x].delta, AN[coarse[x].answer]); return s + fmt("+%ums %s", coarse[op].delta, AN[coarse[op].answer]); };
+      auto mismatch2 = [&](const std::vector<uint16_t>& h, uint16_t op, const std::string& got, const std::string&) {
+        violation("c14:" + got.substr(4), fmt("{\"config\":{\"syncPeriod\":%u,\"initialPeriod\":%u,\"timeoutMs\":%u,\"wiring\":\"%s\",\"startMillis\":%lu},\"events(loop calls)\":%s}", cfg.sync, cfg.init, cfg.timeout, WN[wiring], cfg.start, jstr(hist2(h, op)).c_str()));
+      };
+      McStats s2 = explore<World, Cfg, Ev>(cfg, coarse, a.thorough ? 5000 : 600, expected, mismatch2, before, a.thorough ? 3000000 : 200000);
+      c.add("coarse_states", s2.states); c.add("coarse_transitions", s2.transitions); c.add("executions", s2.executions);
+      c.add(s2.fixpoint ? "coarse_configs_to_fixpoint" : "coarse_configs_cut");
+      if (s2.max_depth + 1 > c.c["max_coarse_depth"]) c.c["max_coarse_depth"] = s2.max_depth + 1;
+    }
     c.add("states", st.states); c.add("transitions", st.transitions); c.add("executions", st.executions); c.add("configs");
     if (st.max_depth + 1 > c.c["max_depth"]) c.c["max_depth"] = st.max_depth + 1;
     c.add(st.fixpoint ? "configs_to_fixpoint" : "configs_cut_at_bound");
